@@ -6,7 +6,7 @@ use crate::engine::{guarded, Verdict, B};
 use crate::props::*;
 use serde_json::{json, Value};
 
-pub const FUZZ_PROPS: &[&str] = &["C01", "C02", "C03", "C04", "C07", "C08", "C10", "C11", "C14", "C16", "C18"];
+pub const FUZZ_PROPS: &[&str] = &["C01", "C02", "C03", "C04", "C07", "C08", "C10", "C11", "C14", "C15", "C16", "C18"];
 
 /// Decode `data` for property `prop` and run its oracle. Returns (case as JSON, verdict).
 pub fn run(prop: &str, data: &[u8]) -> Option<(Value, Verdict)> {
@@ -48,6 +48,29 @@ pub fn run(prop: &str, data: &[u8]) -> Option<(Value, Verdict)> {
             let c = c04::Case { items, cfg: h[0] & 127, flips: vec![(h[1] % 48, h[1] >> 6, h[2] & 1 == 1), (h[2] % 48, h[3] & 3, h[3] & 4 != 0)], buffered: h[0] & 128 != 0, skips: if h[3] & 8 != 0 { vec![h[3] >> 4] } else { vec![] } };
             (json!(c), guarded(|| c04::check(&c)))
         }
+        "C07" if h[1] & 2 != 0 => {
+            // generated target type: [k][k choice bytes][document]
+            let (choices, doc) = dyn_parts(rest)?;
+            let script = crate::dynde::script_from_doc(&doc, &choices);
+            let c = c07::DynCase { script, input: doc.clone(), cuts: if h[1] & 1 == 1 { Some(cuts16(doc.len())) } else { None } };
+            (json!(c), guarded(|| c07::check_dyn(&c)))
+        }
+        "C14" if h[1] & 0x20 != 0 => {
+            let (choices, doc) = dyn_parts(rest)?;
+            let script = crate::dynde::script_from_doc(&doc, &choices);
+            let c = c07::DynCase { script, cuts: Some(cuts16(doc.len())), input: doc };
+            (json!(c), guarded(|| c14::check_dyn(&c)))
+        }
+        "C15" => {
+            let (choices, doc) = dyn_parts(rest)?;
+            const K: [u8; 8] = [0, 1, 3, 4, 5, 7, 8, 9];
+            let mut rewrites = vec![c15::Rw { kind: K[(h[0] & 7) as usize], site: (h[1] as u16) * 257, arg: (h[2] as u16) * 251 + (h[0] >> 3) as u16 }];
+            if h[3] & 0x80 != 0 {
+                rewrites.push(c15::Rw { kind: K[(h[3] & 7) as usize], site: ((h[1] ^ h[3]) as u16) * 257, arg: (h[2] as u16) * 13 + (h[3] >> 3) as u16 });
+            }
+            let c = c15::DynDocCase { doc, choices, rewrites };
+            (json!(c), guarded(|| c15::check_dyn_doc(&c)))
+        }
         "C07" => {
             let t = text()?;
             let all: Vec<c07::Target> = crate::types::ALL_TYPES.iter().map(|t| c07::Target::Fam(*t)).chain(c07::ALL_EXTRA.iter().cloned()).collect();
@@ -86,6 +109,16 @@ pub fn run(prop: &str, data: &[u8]) -> Option<(Value, Verdict)> {
         _ => return None,
     };
     Some(out)
+}
+
+/// `[k][k choice bytes][document text]`
+fn dyn_parts(rest: &[u8]) -> Option<(Vec<u8>, String)> {
+    let k = (*rest.first()? as usize) % 33;
+    if rest.len() < 1 + k {
+        return None;
+    }
+    let doc = std::str::from_utf8(&rest[1 + k..]).ok()?.to_string();
+    Some((rest[1..1 + k].to_vec(), doc))
 }
 
 /// what the fuzz binary calls: panics (= libFuzzer crash) on a real failure
